@@ -139,6 +139,20 @@ def replay_std(ctx, doc, interner, opts, n):
     import pyrepseq as prs
     cols = doc["cols"]
     names = [colname(c) for c in cols]
+    mapper = {colname(c): c["name"] for c in cols if c["old"]} if doc["opts"]["mapper"] else None
+    if mapper and mix(n + 5) % 2 == 0:
+        # mappers whose target label is the current label of another column that the same mapper renames away (the renaming is
+        # simultaneous): a swap of two mislabelled standard columns, or a chain that moves an extra column aside
+        olds = [i for i, c in enumerate(cols) if c["old"]]
+        extras = [i for i, c in enumerate(cols) if not c["old"] and c["name"] not in POOL]
+        if len(olds) >= 2:
+            a, b = olds[0], olds[1]
+            names[a], names[b] = cols[b]["name"], cols[a]["name"]
+            mapper = {names[i]: cols[i]["name"] for i in olds}
+        elif olds and extras:
+            o, e = olds[0], extras[0]
+            names[e] = cols[o]["name"]
+            mapper[names[e]] = cols[e]["name"]
 
     def text(c, cid):
         if cid == 0:
@@ -149,7 +163,6 @@ def replay_std(ctx, doc, interner, opts, n):
     index = [[f"r{i}" for i in range(nrows)][::-1], list(range(10, 10 + nrows)), None, ["donor1"] * nrows][(n // 3) % 4]      # incl. repeated labels
     df = pd.DataFrame(data, index=index, columns=names)
     before = df.copy(deep=True)
-    mapper = {colname(c): c["name"] for c in cols if c["old"]} if doc["opts"]["mapper"] else None
     rp = dict(kind="std", doc=doc, opts=opts, n=n)
     ctx.case(dict(fn="standardize_dataframe", cols=names, rows=doc["tab"], opts=doc["opts"], tt_opts=opts), nontrivial=len(doc["tab"]) > 0 and doc["opts"]["standardize"])
     if mix(n + 77) % 3 == 0:
